@@ -1014,6 +1014,20 @@ Section SettingsProofs.
     destruct (ca_map_type V a), (ca_unknown V a); reflexivity.
   Qed.
 
+  (* the map type is the IDENTITY on the string in every front-end: no trimming, no `::` added *)
+  Theorem cli_map_type_verbatim : forall a : cli_args V,
+      s_map_type _ _ (cli_settings V S a) = match ca_map_type _ a with Some m => m | None => default_map_type end.
+  Proof. intros a. rewrite cli_nf. reflexivity. Qed.
+
+  Theorem map_type_verbatim : forall (o : opts) input output crates_it patch_it replace_it,
+      let m := match o_map_type _ _ o with Some m => m | None => default_map_type end in
+      s_map_type _ _ (builder_settings V S o) = m /\
+      s_map_type _ _ (cli_settings V S (cli_of_opts V S input output o)) = m /\
+      s_map_type _ _ (macro_settings_of V S vec_order (macro_input_of V S o crates_it patch_it replace_it)) = m.
+  Proof.
+    intros o input output ci pi ri. rewrite builder_nf, cli_nf, macro_nf. cbn. repeat split.
+  Qed.
+
   Lemma mkm_entry : forall c, mkm (macro_crate_entry V c) = mkb c.
   Proof. intros [[n v] [r|]]; reflexivity. Qed.
 
